@@ -438,6 +438,24 @@ def splitOps : Ops (List (Branch σ α)) α :=
     request := splitRequest
     run := fun brs _ => ([], brs) }
 
+/-- `for f in fs: x = f(x)` -/
+def applyAll (fs : List (α → α)) (x : α) : α := fs.foldl (fun v f => f v) x
+
+/-- A tuple `(f₁, …, fₙ, el, g₁, …, gₘ)` of callables around one element, as
+`_get_seq_with_type` converts it: `FillComputeSeq(*seq)` / `FillRequestSeq(*seq, …)` put the
+callables before the element into a `FillSeq` of `FillInto` adapters
+(`fill(x) = el.fill(fₙ(…f₁(x)))`, fill_seq.py:62-80, adapters.py `FillInto.fill_into`) and the
+ones after it into a `Sequence` (`compute() = self._after.run(el.compute())`: each result `v`
+becomes `gₘ(…g₁(v))`); `Sequence(*seq)` chains `Run` adapters
+(`run(buf) = map g (el.run(map f buf))`). -/
+def seqOps (pre post : List (α → α)) (el : Ops σ α) : Ops σ α :=
+  { call := el.call
+    fill := fun s x => el.fill s (applyAll pre x)
+    compute := fun s => ((el.compute s).1.map (applyAll post), (el.compute s).2)
+    request := fun s => ((el.request s).1.map (applyAll post), (el.request s).2)
+    run := fun s buf =>
+      ((el.run s (buf.map (applyAll pre))).1.map (applyAll post), (el.run s (buf.map (applyAll pre))).2) }
+
 /-! ## classification of the arguments: `_get_seq_with_type` (split.py:17-71) -/
 
 /-- the callable attributes of one element object that the constructors look at -/
@@ -812,9 +830,29 @@ def nestOps : Ops NState V :=
       | n => ([], n)
     run := fun s _ => ([], s) }
 
+/-- the callable `lambda x: x + 10` of the harness (non-integers are left alone) -/
+def preFn : V → V
+  | .int i => .int (i + 10)
+  | v => v
+
+/-- the callable `lambda v: ("post", v)` of the harness -/
+def postFn (v : V) : V := .tup [.str "post", v]
+
+/-- a harness element presented to Split inside a tuple, with `preFn` before it and/or `postFn`
+after it (forms `tuple_pre`, `tuple_post`, `tuple_pp` of `harness/props/c03.py`) -/
+structure HSpec where
+  base : BSpec
+  pre : Bool
+  post : Bool
+
+def HSpec.ops (tag : Nat) (h : HSpec) : Ops BState V :=
+  if h.pre || h.post then
+    seqOps (if h.pre then [preFn] else []) (if h.post then [postFn] else []) (h.base.ops tag)
+  else h.base.ops tag
+
 /-- a branch of the enclosing Split in a harness case -/
 inductive OSpec where
-  | plain (sp : BSpec)
+  | plain (h : HSpec)
   /-- `Split([inner…])` with a common type; its branches carry the tags `100*(tag+1) + j` -/
   | nest (inner : List BSpec)
 
@@ -825,8 +863,8 @@ def nestKind (inner : List BSpec) : Kind :=
 
 def mkOuterBranches (start : Nat) : List OSpec → List (Branch NState V)
   | [] => []
-  | .plain sp :: rest =>
-    { id := start, kind := sp.kind, ops := liftOps (sp.ops start), st := .plain {} } ::
+  | .plain h :: rest =>
+    { id := start, kind := h.base.kind, ops := liftOps (h.ops start), st := .plain {} } ::
       mkOuterBranches (start + 1) rest
   | .nest inner :: rest =>
     { id := start, kind := nestKind inner, ops := nestOps,
